@@ -87,16 +87,22 @@ def relay_cases(ctx, rng, n, scratch):
     configured = set(rng.sample(range(1, nd + 1), rng.randint(0, nd)))
     for d in range(1, nd + 1):
       router.addDestination(dest_tuple(d))
-    for d in range(1, nd + 1):
-      if d not in configured:
-        router.removeDestination(dest_tuple(d))
+    names = []
     for _ in range(5):
       base = ''.join(rng.choice('abcdx') for _ in range(rng.randint(1, 4)))
       cands = [base]
       for r in rules:
         lit = ''.join(ALPHA[c - 1] for c in r['pat']['lit'])
         cands += [lit, 'x' + lit, lit + 'x', 'x' + lit + 'x', lit.upper()]
-      name = rng.choice(cands)
+      names.append(rng.choice(cands))
+    if k % 2:
+      # traffic while every destination is still there (whatever the router remembers from then must follow the removals)
+      for name in names:
+        list(router.getDestinations(name))
+    for d in range(1, nd + 1):
+      if d not in configured:
+        router.removeDestination(dest_tuple(d))
+    for name in names:
       obs = sorted(set(int(d[0].split('.')[-1]) for d in router.getDestinations(name)))
       recs.append(dict(kind='rules', rules=rules, default=default, configured=sorted(configured), name=enc(name), obs=obs,
                        text=dict(file=[(n_, b) for n_, b in sections], name=name)))
